@@ -95,6 +95,9 @@ def check_program(chk, scratch, prog, tier, budget, san=False):
     jobs = jobs_for(prog, tier, budget)
     lines, text, err = view_run.run_enum_jobs(scratch, prog, jobs, san=san)
     if lines is None:
+        if not prog.name.startswith("G"):
+            # a hand-written catalogue program the compiler rejects is a slip in the catalogue, not an observation
+            raise MachineryError("catalogue program %s is rejected by the compiler: %s\n%s" % (prog.name, err[:2], text))
         chk.extra.setdefault("rejected_programs", []).append({"prog": prog.name, "errors": err[:2]})
         return 0
     if lines == "BUILD_FAILED":
